@@ -433,6 +433,8 @@ def run(ctx):
         "the schema reaches the model as dumped by the real builder without built-in definitions; the five built-in scalars are added by the glue",
         "error messages are not compared: an error is (class, path) with class = carries the resolver's own message / suspected validation bug / other",
         "the harness's resolvers identify an object by (id, claimed type name) and answer from the table; a missing entry is a resolver error",
+        "equality of the model with the reference executor (C26_eq_reference) is not proved in Coq: it is checked on every generated case (implementation = model and implementation = reference, outside the known class)",
+        "the theorems speak about requests whose outcome is a response: that the fuel computed by ex_fuel_for always suffices is not proved (an out-of-fuel result of the model runner is a machinery error; none occurred)",
     ]
     return ctx.finish(props)
 
